@@ -245,7 +245,7 @@ fn run_gated(tracer: &Tracer, rng: &mut StdRng, scenario: &str, tag: Value) {
     } else {
         w.index.searchable_segment_ids().unwrap_or_default()
     };
-    let fut = w.writer.as_mut().map(|wr| wr.merge(&ids));
+    let mut fut = w.writer.as_mut().map(|wr| wr.merge(&ids));
     tracer.emit(json!({"ev":"merge_started","n":ids.len()}));
     {
         let (m, cv) = &*st;
@@ -325,6 +325,15 @@ fn run_gated(tracer: &Tracer, rng: &mut StdRng, scenario: &str, tag: Value) {
         "fresh_writer_delete" => {
             w.exec(&json!({"op":"add","id":n0 + 1,"t":"c","v":0}));
         }
+        "drop_during_merge" => {
+            // the writer is dropped while its merge thread is still inside merge(): the directory lock
+            // goes with the writer object, a new writer can be created at once (C18)
+            drop(fut.take());
+            w.exec(&json!({"op":"drop_writer"}));
+            w.exec(&json!({"op":"new_writer"}));
+            w.exec(&json!({"op":"add","id":n0 + 1,"t":"c","v":0}));
+            w.exec(&json!({"op":"commit"}));
+        }
         "uncommitted_delete_commit" => {
             w.exec(&json!({"op":"del","pred":{"k":"id","id":n0 + 1}}));
             w.exec(&json!({"op":"del","pred":{"k":"id","id":n0 + 3}}));
@@ -384,9 +393,10 @@ fn main() {
             }
         }
         "gated" => {
-            let scen = ["delete_commit", "rollback", "delete_all_commit", "two_commits", "fresh_writer_delete", "wait_with_intruder", "stale_end_merge", "delete_commit_fault", "uncommitted_delete_commit"];
+            let scen = ["delete_commit", "rollback", "delete_all_commit", "two_commits", "fresh_writer_delete", "wait_with_intruder", "stale_end_merge", "delete_commit_fault", "uncommitted_delete_commit", "drop_during_merge"];
+            let only = a.get("only", "");
             for r in 0..runs {
-                let s = scen[(r as usize) % scen.len()];
+                let s = if only.is_empty() { scen[(r as usize) % scen.len()] } else { only.as_str() };
                 run_gated(&tracer, &mut rng, s, json!({"seed":seed,"run":r,"scenario":s}));
             }
         }
